@@ -204,8 +204,9 @@ const FAULT_MENU: [FaultKind; 7] = [
 /// Scripted plain workloads that some sweep checks run after their generated ones.
 fn sweep_scripts(id: &str) -> Vec<(&'static str, u64, u64, ScriptFn)> {
     match id {
-        "C02" => vec![("ping-between-pieces", 400, 40_000, crate::scripts::ping_between_pieces_script), ("wrap", 1000, 100_000, wrap_script), ("disconnect-given-up-then-resume", 300, 30_000, crate::scripts::disconnect_given_up_script), ("flush-fault-then-resume", 300, 30_000, crate::scripts::c06_flush_fault_script)],
-        "C05" | "C18" => vec![("many-fresh-sessions", 24, 600, crate::scripts::fresh_sessions_script)],
+        "C02" => vec![("many-refused-handshakes", 16, 400, crate::scripts::many_refused_handshakes_script), ("ping-between-pieces", 400, 40_000, crate::scripts::ping_between_pieces_script), ("wrap", 1000, 100_000, wrap_script), ("disconnect-given-up-then-resume", 300, 30_000, crate::scripts::disconnect_given_up_script), ("flush-fault-then-resume", 300, 30_000, crate::scripts::c06_flush_fault_script)],
+        "C05" => vec![("many-fresh-sessions", 24, 600, crate::scripts::fresh_sessions_script), ("many-refused-handshakes", 16, 400, crate::scripts::many_refused_handshakes_script)],
+        "C18" => vec![("many-fresh-sessions", 24, 600, crate::scripts::fresh_sessions_script)],
         "C03" => vec![("ping-between-pieces", 300, 30_000, crate::scripts::ping_between_pieces_script), ("window-saturation", 500, 50_000, crate::scripts::saturation_script), ("wrap", 400, 40_000, wrap_script), ("disconnect-given-up-then-resume", 300, 30_000, crate::scripts::disconnect_given_up_script), ("release-on-a-full-arena", 300, 30_000, crate::scripts::release_on_a_full_arena_script), ("replay-blocked-by-a-smaller-limit", 300, 30_000, crate::scripts::replay_blocked_by_a_smaller_limit_script)],
         "C16" => vec![("wrap", 300, 30_000, wrap_script), ("window-saturation", 200, 20_000, crate::scripts::saturation_script), ("ping-between-pieces", 200, 20_000, crate::scripts::ping_between_pieces_script), ("release-on-a-full-arena", 200, 20_000, crate::scripts::release_on_a_full_arena_script), ("probe-due-on-a-full-send-buffer", 200, 20_000, crate::scripts::stalled_probe_script)],
         "C01" => vec![("ping-between-pieces", 200, 20_000, crate::scripts::ping_between_pieces_script), ("wrap", 400, 40_000, wrap_script), ("disconnect-given-up-then-resume", 300, 30_000, crate::scripts::disconnect_given_up_script), ("disconnect-asked-again", 600, 60_000, crate::scripts::disconnect_asked_again_script), ("pingreq-cut-then-resume", 400, 40_000, crate::scripts::pingreq_cut_then_resume_script)],
@@ -962,7 +963,7 @@ pub fn all() -> Vec<Box<dyn Check>> {
         level: "exploration",
         rule: concat!("the reference broker originates bursts of PUBLISH packets (all QoS, identifiers incl. 1/255/256/65535, random property sets, payloads up to the receive buffer, retain/DUP), retransmissions of unreleased QoS 2 identifiers, PUBRELs for known and unknown ids, interleaved with client traffic, small transmit arenas kept full by withheld acks, reconnects between PUBLISH and PUBREL; a 40-line reference receiver predicts deliveries and the exact acknowledgement sequence; a call that reports WriteZero although every write that was offered a byte took one, while acknowledgements are owed, is a violation. Non-trivial iff a duplicate was suppressed, an ack was owed with a full arena, or >=3 QoS 2 ids were pending. The hostile workload (broker exceeding limits/reusing ids) is judged only for: no panic, acks carry ids that were received.", " Scripted workload `full-table-redelivery`: seven or eight inbound QoS 2 exchanges open (PUBRELs withheld), the connection lost before the PUBREC of the last one was written, the broker redelivers it on the resumed (or fresh) connection."),
         assumptions: COMMON_ASSUME.to_vec(),
-        workloads: vec![("inbound-heavy", 5000, 2_000_000, Source::Gen(inbound_heavy)), ("inbound-hostile", 1000, 400_000, Source::Gen(inbound_hostile)), ("general", 1000, 400_000, Source::Gen(general)), ("full-table-redelivery", 300, 30_000, Source::Script(crate::scripts::c04_script)), ("refused-request-while-half-read", 600, 60_000, Source::Script(crate::scripts::refused_request_while_half_read_script))],
+        workloads: vec![("inbound-heavy", 5000, 2_000_000, Source::Gen(inbound_heavy)), ("inbound-hostile", 1000, 400_000, Source::Gen(inbound_hostile)), ("general", 1000, 400_000, Source::Gen(general)), ("full-table-redelivery", 300, 30_000, Source::Script(crate::scripts::c04_script)), ("refused-request-while-half-read", 600, 60_000, Source::Script(crate::scripts::refused_request_while_half_read_script)), ("redelivery-under-a-tiny-limit", 300, 30_000, Source::Script(crate::scripts::redelivery_under_a_tiny_limit_script))],
         monitor: m::c04::check,
         max_steps: 80,
         epilogue_polls: 0,
